@@ -272,3 +272,31 @@ def match_batch(spec_path, out_path):
         with open(out_path + ".log", "w") as f:
             f.write(buf.getvalue()[-20000:])
     MPI.COMM_WORLD.Barrier()
+
+
+def gen_strings(basis, compl, outdir):
+    """the part of duplicate_checker.main that produces trees_n / all_equations_n / aifeyn_n (generate_equations, get_match_indexes,
+    initial_sympify, the writing of all_equations), WITHOUT the deduplication rounds - the same calls with the same arguments, so
+    that C02's line-by-line law can be checked at complexities where deduplication takes hours"""
+    import pprint
+    import esr.generation.generator as generator
+    import esr.generation.simplifier as simplifier
+    import esr.generation.utils as utils
+    os.makedirs(outdir, exist_ok=True)
+    all_fun, extra_orig = generator.generate_equations(compl, basis, outdir)
+    max_param = simplifier.get_max_param(all_fun)
+    nextra = len(extra_orig)
+    extra_orig = utils.get_match_indexes(all_fun, extra_orig)
+    if nextra > 0:
+        all_fun[:-nextra], all_sym = simplifier.initial_sympify(all_fun[:-nextra], max_param)
+        all_fun[-nextra:], _ = simplifier.initial_sympify(all_fun[-nextra:], max_param, save_sympy=False, verbose=False)
+    else:
+        all_fun, all_sym = simplifier.initial_sympify(all_fun, max_param)
+    with open(outdir + '/all_equations_%i.txt' % compl, "w") as f:
+        w = 80
+        pp = pprint.PrettyPrinter(width=w, stream=f)
+        for s_ in all_fun:
+            if len(s_ + '\n') > w / 2:
+                w = 2 * len(s_)
+                pp = pprint.PrettyPrinter(width=w, stream=f)
+            pp.pprint(s_)
